@@ -832,7 +832,7 @@ class PsProcess:
         if self._p.reaped:
             raise NoSuchProcess(self.pid)
         if self._p.alive:
-            s.trace.append(("killed-by", s.cur.full, self._p.label))
+            s.trace.append(("killed-by", s.cur.full, self._p.label, K.stack_sig_proc(s, self._p)))
             s.kill_proc(self._p, s.cur, -9)
             if s.cur.killed:
                 raise SimKilled()
